@@ -519,6 +519,44 @@ def op_size_pair(case, pm):
     return res
 
 
+def op_shebang(case, pm):
+    """C16 in this interpreter: minify(bytes) and minify(text) of a source with a shebang line: no exception, first line reproduced, same result for both"""
+    b = base64.b64decode(case['data_b64'])
+    enc = case.get('encoding') or 'utf-8'
+    try:
+        compile(b, 'shebang_case', 'exec', dont_inherit=True)
+    except Exception:
+        return {'status': 'skip', 'reason': 'uncompilable here'}
+    first = b.split(b'\n')[0].rstrip(b'\r').decode(enc)
+    res = {'status': 'held', 'violations': [], 'checks': 0}
+    outs = []
+    if PY2 and b'coding' not in b'\n'.join(b.split(b'\n')[:2]):
+        try:
+            b.decode('ascii')
+        except UnicodeError:
+            # a python 2 source file with non-ASCII bytes and no coding cookie is rejected by the interpreter (compile() of a str is more lenient)
+            return {'status': 'skip', 'reason': 'python 2: non-ASCII source without a cookie'}
+    for label, source in (('bytes', b), ('text', b.decode(enc))):
+        if PY2 and label == 'text' and b'coding' in b.split(b'\n')[0] + b.split(b'\n')[1 if b.count(b'\n') else 0]:
+            continue        # python 2 rejects unicode source text that carries a coding cookie
+        try:
+            out = pm.minify(source, preserve_shebang=True)
+        except Exception as e:
+            res['violations'].append({'kind': 'raised', 'detail': 'minify(%s) raised %s: %s' % (label, type(e).__name__, str(e)[:120])})
+            continue
+        if not isinstance(out, unicode):
+            out = out.decode('utf-8')
+        res['checks'] += 1
+        outs.append(out)
+        if out.split(u'\n')[0] != first:
+            res['violations'].append({'kind': 'shebang-differs', 'detail': '%s input: first output line %r, first source line %r' % (label, out.split(u'\n')[0][:60], first[:60])})
+    if len(outs) == 2 and outs[0] != outs[1]:
+        res['violations'].append({'kind': 'bytes-vs-text', 'detail': 'minify(bytes) != minify(text): %r vs %r' % (outs[0][:80], outs[1][:80])})
+    if res['violations']:
+        res['status'] = 'violation'
+    return res
+
+
 # ---- C01 cross-interpreter layer: run P and minify(P) in this interpreter, compare what each prints / raises / leaves in its namespace
 class _Sink(object):
     def __init__(self):
@@ -676,7 +714,7 @@ def op_run(case, pm):
     return res
 
 
-OPS = {'run': op_run, 'size_pair': op_size_pair, 'minify': op_minify, 'preserved': op_preserved, 'frozen': op_frozen, 'rt': op_rt, 'mc': op_mc, 'fold': op_fold, 'compile': op_compile, 'valeq': op_valeq}
+OPS = {'run': op_run, 'shebang': op_shebang, 'size_pair': op_size_pair, 'minify': op_minify, 'preserved': op_preserved, 'frozen': op_frozen, 'rt': op_rt, 'mc': op_mc, 'fold': op_fold, 'compile': op_compile, 'valeq': op_valeq}
 
 
 def main():
